@@ -417,7 +417,65 @@ func relmodShape(repo string) (string, error) {
 		return "", err
 	}
 	sb.WriteString(pay)
+	// the type / field / view / parameter functions as Model.v transliterates them (which kinds of type get which row,
+	// the constraint fold, what of a view is read), and the assembly of the transform input
+	fmt.Fprintf(&sb, "Definition normalize_fn_text : list (string * string) := [%s].\n",
+		strings.Join(fnTexts(gf, funcs, []string{"normalizeType", "normalizeField", "normalizeView", "normalizeParam"}), ";\n  "))
+	tfuncs := map[string]*ast.FuncDecl{}
+	tf, terr := parseGo(repo, "pkg/arrai/transform/utils.go")
+	if terr == nil {
+		for _, fd := range funcDecls(tf.file) {
+			if fd.Recv == nil {
+				tfuncs[fd.Name.Name] = fd
+			}
+		}
+	}
+	fmt.Fprintf(&sb, "Definition transform_fn_text : list (string * string) := [%s].\n",
+		strings.Join(fnTexts(tf, tfuncs, []string{"BuildTransformInput", "buildModel"}), ";\n  "))
 	return sb.String(), nil
+}
+
+// nilMode: what parseFieldType(appName, t) does with t == nil. NilGuarded: its first statement is `if t == nil { return nil }`;
+// NilDeref: its first statement is the type switch on t.Type (a nil t is dereferenced); anything else: NilUnknown.
+func nilMode(fd *ast.FuncDecl) string {
+	if fd == nil || fd.Body == nil || len(fd.Body.List) == 0 || fd.Type.Params == nil || len(fd.Type.Params.List) != 2 ||
+		len(fd.Type.Params.List[1].Names) != 1 {
+		return "NilUnknown"
+	}
+	param := fd.Type.Params.List[1].Names[0].Name
+	switch st := fd.Body.List[0].(type) {
+	case *ast.IfStmt:
+		be, isBin := st.Cond.(*ast.BinaryExpr)
+		if st.Init == nil && st.Else == nil && isBin && be.Op == token.EQL && exprStr(be.X) == param && exprStr(be.Y) == "nil" && len(st.Body.List) == 1 {
+			if r, ok := st.Body.List[0].(*ast.ReturnStmt); ok && len(r.Results) == 1 && exprStr(r.Results[0]) == "nil" {
+				return "NilGuarded"
+			}
+		}
+	case *ast.TypeSwitchStmt:
+		if as, ok := st.Assign.(*ast.AssignStmt); ok && len(as.Rhs) == 1 {
+			if ta, ok := as.Rhs[0].(*ast.TypeAssertExpr); ok && ta.Type == nil && exprStr(ta.X) == param+".Type" {
+				return "NilDeref"
+			}
+		}
+	}
+	return "NilUnknown"
+}
+
+// fnTexts: go/printer text (comments dropped, blanks collapsed) of the named functions; "<missing>" for one not found
+func fnTexts(gf *goFile, funcs map[string]*ast.FuncDecl, names []string) []string {
+	var texts []string
+	for _, fn := range names {
+		txt := "<missing>"
+		if fd := funcs[fn]; fd != nil && gf != nil {
+			var buf bytes.Buffer
+			fd.Doc = nil
+			if err := printer.Fprint(&buf, gf.fset, fd); err == nil {
+				txt = wsRE.ReplaceAllString(buf.String(), " ")
+			}
+		}
+		texts = append(texts, fmt.Sprintf("(%s, %s)", coqString(fn), coqString(txt)))
+	}
+	return texts
 }
 
 // ---- pkg/arrai/relmod/relmod.go: the return-payload reader and the annotation value conversion ----
@@ -426,7 +484,8 @@ func relmodShape(repo string) (string, error) {
 //	                    string literals, PrimWord: one regular expression (?:a|b|...)\b) and its alternatives in order;
 //	                    whether parseReturnPayload sorts the modifiers (ModsSorted) or hands over the order of arr.ai's
 //	                    set export (ModsSetOrder); whether a name with several values is refused with an error
-//	                    (DupRefused) or runs into the failing type assertion of ToStringInterfaceMap (DupPanics)
+//	                    (DupRefused) or runs into the failing type assertion of ToStringInterfaceMap (DupPanics);
+//	                    g_nil: whether parseFieldType guards a nil type (NilGuarded) or dereferences it (NilDeref)
 //	payload_rules       the grammar text without the PRIMITIVE rule, blanks collapsed
 //	payload_tx          the arr.ai function applied to the parse tree, blanks collapsed
 //	payload_status_default  the status parseReturnPayload starts from
@@ -578,8 +637,8 @@ func payloadShape(repo string) (string, error) {
 	for i, p := range prims {
 		q[i] = coqString(p)
 	}
-	fmt.Fprintf(&sb, "Definition payload_grammar : grammar := {| g_prim_mode := %s; g_prims := map bytes [%s]; g_mods := %s; g_dup := %s |}.\n",
-		primMode, strings.Join(q, "; "), modsMode, dupMode)
+	fmt.Fprintf(&sb, "Definition payload_grammar : grammar := {| g_prim_mode := %s; g_prims := map bytes [%s]; g_mods := %s; g_dup := %s; g_nil := %s |}.\n",
+		primMode, strings.Join(q, "; "), modsMode, dupMode, nilMode(funcs["parseFieldType"]))
 	fmt.Fprintf(&sb, "Definition payload_rules : string := %s.\n", coqString(rules))
 	fmt.Fprintf(&sb, "Definition payload_tx : string := %s.\n", coqString(tx))
 	fmt.Fprintf(&sb, "Definition payload_status_default : string := %s.\n", coqString(statusDefault))
